@@ -900,6 +900,14 @@ func (e *SpecEnv) evalCall(x *ECall) SV {
 				return e.evalStrKey(x) // ext_kviter.go
 			case "kvsub":
 				return e.evalKvSub(x) // ext_kviter.go
+			case "kvstr":
+				// T-KV: kvstr(s): value id of the byte string held by the Go string s (ext_kvstr.go)
+				v := e.eval(x.Args[0])
+				if fc.tc.sortOfSV(v) != "Str" {
+					e.fail("kvstr of %s", v.typ)
+				}
+				fc.eng.declareUF(fc, "kvstr", []string{"Str"}, "Int")
+				return SV{t: app("kvstr", v.t), typ: mathInt}
 			case "kvkey", "kvval":
 				// T-KV: kvkey(s) / kvval(s): abstract identity of the byte string held by s (slice or array), used as key /
 				// value of a key-value store. Uninterpreted function of (block, offset, length) exactly like bigbytes, i.e. any
